@@ -112,6 +112,8 @@ def make_table(tspec):
                             v = dy(rng, 0, 4)
                         elif style == "flat":
                             v = 0.5
+                        elif style == "unit":
+                            v = float(f + 1)
                         else:  # arbitrary doubles
                             acc += rng.random()
                             v = acc
